@@ -158,6 +158,8 @@ def run(prog: Program, rep: Report, tier: str) -> None:
     rep.rule("R1.2", "the signature atom covers exactly all preceding nibbles of the written frame", 14)
     rep.rule("R1.3", "nibbles 0-3 are the literal fef0 and nibbles 76-79 the literal f0fe (all fields before nibble 80 have constant width)", 14)
     rep.rule("R1.4", "nibbles 4-7 denote LE16 of the total frame length (body/2 + 4) for every argument value", 14)
+    rep.rule("R1.6", "the widths assumed for the configured fields hold: _device_id / _device_key are stored once, in SwitcherApi.__init__, from the same-named parameter unchanged (A2/A3 speak of the caller's "
+             "values; a constructor that rewrites them - strips, pads, re-formats - changes the frame length while the templates' length field stays what it was)", 4)
     rep.rule("R1.5", "for accepted arguments frame construction cannot fail in unhexlify (even nibble count, hex alphabet)", 12)
     rep.assumptions += A.ASSUMPTIONS
     rep.trusted += [
@@ -195,6 +197,8 @@ def run(prog: Program, rep: Report, tier: str) -> None:
         else:
             rep.ok("R1.5", f"{op}", where_op, "no path raises binascii.Error under A1-A5")
     foreign_sender_sweep(prog, rep, resolved_sites)
+    from .c02 import config_sweep
+    config_sweep(prog, rep, "R1.6")
     rep.analysed["functions"] = sorted(funcs)
     rep.analysed["paths"] = total_paths
     rep.analysed["distinct_frames"] = len(seen)
